@@ -7,7 +7,7 @@ INFO = {
         "quick": "two messages (1 symbolic byte = all 256 values in first / second position, one segment; concrete 0a/100a and a 64-byte message (4095 bytes: thorough) for segmentation) written by the real "
                  "write(), wire stream cut at one symbolic offset, segments delivered at symbolic instants t1 <= t2 (microseconds, 0..3 s), first read with a "
                  "symbolic timeout or none; EOF after a symbolic prefix of one line; server loop with two request lines cut at a symbolic offset; tcp-lines and unix-lines",
-        "thorough": "first message 2 symbolic bytes; two cuts",
+        "thorough": "additionally the 4095-byte message and every listed cut position of the long messages",
     },
     "stubs": ["sockets -> asyncio StreamReader/StreamWriter on a fake transport; scripted peer feeds bytes at symbolic instants on the virtual-time loop",
               "logger.* stripped"],
@@ -90,7 +90,7 @@ def obligations(tier, scratch):
         src.append(code)
         obs.append({"name": name, "module_path": path, "function": name, "cap": cap, "opaque": False, "twin_cap": 120, "meta": meta})
 
-    nsym = 1 if quick else 2
+    nsym = 1  # two symbolic bytes would be 65536 realisations through binascii: not reachable (DESIGN.md 8.2)
     for kind in ("tcp", "unix"):
         # content: every value of a symbolic message, in first and in second position, delivered in one segment
         for pos, args in (("first", f"{kind!r}, m, b'\\x10\\x0a', 0, 1000, 1000, 1, False"), ("second", f"{kind!r}, b'\\x0a', m, 0, 1000, 1000, 1, False")):
